@@ -186,6 +186,11 @@ def face_set(shape, ax, i):
 # Coq literals
 # ---------------------------------------------------------------------------
 
+def cqq(fr):
+    fr = Fraction(fr)
+    return '((%d) # %d)%%Q' % (fr.numerator, fr.denominator)
+
+
 def cn(n):
     return '%d' % n
 
@@ -269,7 +274,7 @@ Definition ok (c : ctype) : bool :=
   let '(shape, b, flip, e) := c in oeqb nl (boundary_slice shape b flip) e.
 '''
 
-HEADER_BC = HEADER + '''
+HEADER_BC = HEADER.replace('From Verif.C10 Require Import Model.', 'From Verif.C14 Require Model.\nFrom Verif.C10 Require Import Model.') + '''
 Definition get (o : option (list nat)) : list nat := match o with Some l => l | None => [] end.
 (* (shape, [(bdspec, ncomp)], p2g per condition (empty = identity), expected local index lists,
     value ids of the concatenated local values, combine?, expected (idx, value ids)) *)
@@ -284,15 +289,21 @@ Definition ok (c : ctype) : bool :=
       if comb then
         let r := combine_flat nat 0 (concat glob) vids in nl (fst r) eidx && nl (snd r) evals
       else nl (concat glob) eidx && nl vids evals).
-(* several patches: shapes differ per condition *)
-Definition ctypemp := (list (list nat * (bdspec * nat) * list nat * list nat) * list nat * (list nat * list nat))%type.
+(* several patches: shapes per patch, joins (C14's bjoin), p2g per patch as returned by the implementation,
+   conditions (patch, (bdspec, ncomp), expected local indices, value ids), expected (idx, value ids).
+   The global numbering is recomputed by C14's model from the joins and must equal the implementation's;
+   the loop of Multipatch.compute_dirichlet_bcs (with its cache) is the model's mp_compute_dirichlet_bcs. *)
+Definition ctypemp := (list (list nat) * list C14.Model.bjoin * list (list nat)
+                       * list (nat * (bdspec * nat) * list nat * list nat) * (list nat * list nat))%type.
 Definition okmp (c : ctypemp) : bool :=
-  let '(conds, vids, (eidx, evals)) := c in
-  let locals := map (fun q => let '(shape, bc, p2g, eloc) := q in dirichlet_indices shape (fst bc) (snd bc)) conds in
-  forallb (fun o => match o with Some _ => true | None => false end) locals
-  && nll (map get locals) (map (fun q => snd q) conds)
-  && (let glob := map (fun lq => renumber (snd (fst (snd lq))) (fst lq)) (combine (map get locals) conds) in
-      let r := combine_flat nat 0 (concat glob) vids in nl (fst r) eidx && nl (snd r) evals).
+  let '(shapes, js, p2gs, conds, (eidx, evals)) := c in
+  let p2gm := snd (C14.Model.observe shapes js) in
+  let locals := map (fun q => let '(p, bc, eloc, vids) := q in dirichlet_indices (nth p shapes []) (fst bc) (snd bc)) conds in
+  nll p2gm p2gs
+  && forallb (fun o => match o with Some _ => true | None => false end) locals
+  && nll (map get locals) (map (fun q => snd (fst q)) conds)
+  && (let mc := map (fun lq => let '(p, bc, eloc, vids) := snd lq in (p, fst lq, vids)) (combine (map get locals) conds) in
+      let r := mp_compute_dirichlet_bcs nat 0 (fun p => nth p p2gm []) mc in nl (fst r) eidx && nl (snd r) evals).
 '''
 
 HEADER_COMB = HEADER + '''
@@ -310,6 +321,31 @@ Definition oki (c : ctypei) : bool :=
   let '(shape, b, e) := c in oeqb nl (initial_indices shape b) e.
 '''
 
+
+HEADER_ICQ = '''From Coq Require Import QArith Qcanon Qcabs List Arith Bool.
+From Verif.lib Require Import Bsp.
+From Verif.C10 Require Import Model_ic.
+Import ListNotations.
+Fixpoint bad {C} (ok : C -> bool) (k : nat) (cs : list C) : list nat :=
+  match cs with [] => [] | c :: cs' => if ok c then bad ok (S k) cs' else k :: bad ok (S k) cs' end.
+Definition close (bound a b : Qc) : bool := qleb (Qcabs (a - b)) bound.
+(* (time knots, degree, side, rows (G0, G1, impl a, impl b, bound)): the two coefficients of every spatial dof
+   against the model ic_coeffs (exact active_deriv at the end point + exact 2x2 solve) *)
+Definition ctypeq := (list Q * nat * nat * list (Q * Q * Q * Q * Q))%type.
+Definition okq (c : ctypeq) : bool :=
+  let '(kvq, p, side, rows) := c in
+  let kv := map Q2Qc kvq in
+  open_kv kv p &&
+  forallb (fun row : Q * Q * Q * Q * Q => let '(G0, G1, a, b, bnd) := row in
+     let m := ic_coeffs kv p side (Q2Qc G0) (Q2Qc G1) in
+     close (Q2Qc bnd) (Q2Qc a) (fst m) && close (Q2Qc bnd) (Q2Qc b) (snd m)) rows.
+'''
+
+# bound for the 2x2 solve of compute_initial_condition_01 against the exact model: LAPACK's LU with partial pivoting
+# of [[1,0],[-c,c]] (resp. [[0,1],[-c,c]]) computes a = g0 and b = g0 + g1/c (resp. mirrored) with <= 4 roundings each on
+# quantities of size <= |g0| + |g1|/c, and c itself (active_deriv in binary64) has relative error <= 8u: together
+# <= 16 u (|g0| + |g1|/c) = 2^-49 (...); IC_SOLVE_TOL = 2^-44 (1 + |g0| + |g1|/c) leaves a factor 32.
+IC_SOLVE_TOL = Fraction(1, 2 ** 44)
 
 # ---------------------------------------------------------------------------
 # generators
@@ -648,6 +684,10 @@ def gen_mp(ctx):
             conds.append([rng.randrange(npatch), rng.choice(['left', 'right', 'bottom', 'top', [0, 0], [0, 1], [1, 0], [1, 1]]),
                           rng.choice(['one', 'lin', 'quad', 1.5])])
         cases.append({'kvs': [kv] * npatch, 'geos': geos, 'joins': joins, 'conds': conds})
+        # a patch re-appears after conditions for another patch (walking around the domain)
+        g = rng.choice(['lin', 'quad'])
+        cases.append({'kvs': [kv] * npatch, 'geos': geos, 'joins': joins,
+                      'conds': [[0, 'bottom', g], [1, 'bottom', g], [0, 'left', g], [npatch - 1, 'right', 1.5], [0, 'top', g], [1, [0, 1], g]]})
     return cases
 
 
@@ -771,13 +811,16 @@ def run_case_files(ctx, prefix, header, okname, texts, chunk=250, ctype='ctype')
 
 
 def run(ctx):
-    ctx.obligations_stage(PROPS, extra_targets=['C10/Examples.vo'])
+    ctx.obligations_stage(PROPS, extra_targets=['C10/Examples.vo'], gate_dirs=['C02', 'C14'])
     ctx.assumptions += [
         'model: hand transcription of RestrictedLinearSystem, slice_indices/boundary_dofs/boundary_cells, _parse_bdspec, '
         'combine_bcs, _drop_nans, the index parts of compute_dirichlet_bc(s)/compute_initial_condition_01 and of '
         'Multipatch.compute_dirichlet_bcs into Gallina (coq/C10/Model.v, coq/lib/Slice.v); I[mask] row selection and its '
         'transpose are modelled by compress/expand, np.argsort by a stable insertion sort, np.unique by filtering a range',
-        'model includes the repair fixes/C10-unsorted-indices.patch (values[np.argsort(indices)]); the unrepaired line is refuted',
+        'model includes the repairs 14223d2 (values[np.argsort(indices)]; the unrepaired line is refuted) and 0cee539 (time basis at the end '
+        'points of the knot vector); Model_ic.ic_coeffs = exact active_deriv (lib/Bsp.v, proved against Cox-de Boor in C02) + exact 2x2 solve, '
+        'tied to the implementation within IC_SOLVE_TOL = 2^-44 (1+|g0|+|g1|/c); the multipatch loop (with its cache) is Model.mp_compute_dirichlet_bcs '
+        'evaluated on the numbering recomputed by C14\'s model from the joins',
         'theorems are over commutative rings with Leibniz equality (Z, Qc); binary64 rounding of A.dot is not modelled: the tie '
         'uses integer data, for which the implementation computes exactly',
         'tie: exact comparison (Z / nat, vm_compute) of A, b, restrict, restrict_rhs, extend, complete, restrict_matrix and of all '
@@ -809,7 +852,7 @@ def gen_all(ctx):
 
 def replay(ctx, data):
     """./check C10 --replay evidence/replay/C10-n.json: run the recorded input alone."""
-    ctx.obligations_stage(PROPS, extra_targets=['C10/Examples.vo'])
+    ctx.obligations_stage(PROPS, extra_targets=['C10/Examples.vo'], gate_dirs=['C02', 'C14'])
     sig = data.get('signature', '')
     case = (data.get('replay') or {}).get('case')
     fam = None
@@ -1034,6 +1077,35 @@ def process(ctx, P, res, dist):
         ctx.broken.append('correspondence C10 model<->impl (compute_initial_condition_01 indices) differs')
         ctx.report('tie:ic', 'model and implementation of compute_initial_condition_01 differ in the index array', {'case': ic[b]}, found_input=False)
 
+    # the two coefficients per spatial dof against the model of the collocation solve (Model_ic.ic_coeffs)
+    texts, owners = [], []
+    for k, (c, r) in enumerate(zip(ic, res['ic'])):
+        if r['status'] != 'Ok' or 'G0' not in r or any(v != v for v in r['vals']):
+            continue
+        ax, side = c['bdspec']
+        tk = [Fraction(float.fromhex(t)) for t in r['tknots']]
+        pdeg = r['tp']
+        cc = Fraction(pdeg) / ((tk[pdeg + 1] - tk[0]) if side == 0 else (tk[-1] - tk[len(tk) - pdeg - 2]))
+        nface = len(r['G0'])
+        if len(r['vals']) != 2 * nface:
+            continue
+        rows = []
+        for sidx in range(nface):
+            G0 = Fraction(float.fromhex(r['G0'][sidx]))
+            G1 = Fraction(float.fromhex(r['G1'][sidx]))
+            bnd = IC_SOLVE_TOL * (1 + abs(G0) + abs(G1) / cc)
+            rows.append('(%s, %s, %s, %s, %s)' % (cqq(G0), cqq(G1), cqq(Fraction(r['vals'][sidx])), cqq(Fraction(r['vals'][nface + sidx])), cqq(bnd)))
+        texts.append('(%s, %d%%nat, %d%%nat, %s)' % (clist([cqq(t) for t in tk]), pdeg, side, clist(rows)))
+        owners.append(k)
+    for b in run_case_files(ctx, 'icq', HEADER_ICQ, 'okq', texts, 40, 'ctypeq'):
+        ndis += 1
+        k = owners[b]
+        ctx.broken.append('correspondence C10 model<->impl (collocation solve of compute_initial_condition_01) differs on %s' % ic[k])
+        bad, _w = check_ic(ic[k], res['ic'][k], kv_shape(ic[k]['kvs']))
+        ctx.report('tie:ic:solve', 'the coefficients of compute_initial_condition_01 differ from the model ic_coeffs by more than IC_SOLVE_TOL'
+                   + (': ' + bad[1] if bad else ' (the reproduction oracle does not fail on this input)'),
+                   {'case': ic[k], 'impl': {kk: res['ic'][k].get(kk) for kk in ('idx', 'vals', 'G0', 'G1')}}, found_input=bool(bad))
+
     # ------------------------------------------------------------------ Multipatch.compute_dirichlet_bcs
     texts, owners = [], []
     for k, (c, r) in enumerate(zip(mp, res['mp'])):
@@ -1052,9 +1124,14 @@ def process(ctx, P, res, dist):
         if any(not (0 <= i < r['numdofs']) for i in r['idx']):
             ctx.report('impl:mp:range', 'global index outside range(numdofs)', {'case': c, 'impl': r})
         lv, ev = vids_of([l[1] for l in r['local']], r['vals'])
-        conds = clist(['(%s, (%s, %d), %s, %s)' % (nl(shapes[p]), cbd(bs), ncomp_of(g), nl(r['p2g'][p]), nl(l[0]))
-                       for (p, bs, g), l in zip(c['conds'], r['local'])])
-        texts.append('(%s, %s, (%s, %s))' % (conds, nl([v for l in lv for v in l]), nl(r['idx']), nl(ev)))
+        conds = clist(['(%d, (%s, %d), %s, %s)' % (p, cbd(bs), ncomp_of(g), nl(l[0]), nl(v))
+                       for (p, bs, g), l, v in zip(c['conds'], r['local'], lv)])
+        js = []
+        for (p1, b1, p2, b2, flip) in c['joins']:
+            a1, s1 = parse_bdspec_oracle(b1, len(shapes[p1]))
+            a2, s2 = parse_bdspec_oracle(b2, len(shapes[p2]))
+            js.append('C14.Model.mk_bjoin %d %d %d %d %d %d %s' % (p1, a1, s1, p2, a2, s2, clist(flip or [], cbool)))
+        texts.append('(%s, %s, %s, %s, (%s, %s))' % (nll(shapes), clist(js), nll(r['p2g']), conds, nl(r['idx']), nl(ev)))
         owners.append(k)
     for b in run_case_files(ctx, 'mp', HEADER_BC, 'okmp', texts, 200, 'ctypemp'):
         ndis += 1
@@ -1076,9 +1153,9 @@ def process(ctx, P, res, dist):
     ctx.cov['largest_observed_deviation'] = float(worst)
     ctx.cov['exhaustive'] = False
     ctx.cov['partial'] = [
-        'slice_indices_face (every dof of the slice exactly once, for every shape): checked exhaustively for sizes<=4 by the tie/oracle, not a theorem',
-        'initial_condition_01_reproduces: evaluated on the implementation (own Cox-de Boor oracle), no theorem about active_deriv',
         'values of compute_dirichlet_bc interpolate the data: evaluated on the implementation within INTERP_TOL (interpolate is C17)',
+        'initial_condition_01_reproduces is a theorem for the time direction (every open knot vector, both ends); the spatial '
+        'interpolation of g0, g1 (C17) and the tensor-product lifting to the space-time spline are evaluated on the implementation',
     ]
 
 
@@ -1149,8 +1226,14 @@ META = {
                   'by exact comparison (Z/nat, vm_compute) of A, b, restrict, restrict_rhs, extend, complete, restrict_matrix on ~300 (thorough ~1400) systems '
                   'incl. all orders of small index sets, of slice_indices on every 1-3-D shape with sizes<=3 (4), every axis/index/flip, of boundary_dofs/cells, '
                   'of the index arrays of compute_dirichlet_bc(s), compute_initial_condition_01 and Multipatch.compute_dirichlet_bcs, and of combine_bcs/_drop_nans. '
-                  'PARTIAL: that slice_indices lists every dof of the slice once, that boundary values interpolate the data and that initial conditions reproduce '
-                  'value and time derivative are evaluated on the implementation (exactly / within 1e-11 relative), not proved.',
+                  'slice_indices / boundary_dofs / boundary_cells list every dof (cell) of the face exactly once for every shape, axis, index, flip '
+                  '(slice_indices_face, boundary_dofs_face, boundary_cells_face), compute_dirichlet_bcs("all") is every boundary dof of every component once '
+                  '(dirichlet_bcs_all_each_dof_once). On top of C02: for every open knot vector of degree >= 1 on any interval the end-point collocation matrix '
+                  'is [[1,0],[-c,c]] resp. [[0,1],[-c,c]] and the computed coefficient pair reproduces value and first time derivative whatever the other '
+                  'coefficients (initial_condition_01_reproduces[_right]). On top of C14: Multipatch.compute_dirichlet_bcs, for any order/repetition of '
+                  'conditions, returns exactly the glued indices, each once, first value (mp_loop_any_order, mp_bcs_glued, mp_bcs_one_entry_per_class). '
+                  'PARTIAL: that boundary values interpolate the data (C17) and the space-time lifting of the initial-condition theorem are evaluated on the '
+                  'implementation (within 1e-11 relative), not proved.',
     'level_note': 'Trusted: Coq kernel + vm_compute; the hand transcription of assemble.py:346-652,1385-1405 and bspline.py:13-33 into Gallina (validated by the '
                   'exact correspondence run); scipy.sparse row selection I[mask] and products are what compress/expand say; the harness oracles (Fraction Gauss-Jordan, '
                   'own Cox-de Boor). Not modelled: binary64 rounding in A.dot (integer data are exact), interpolate (C17), geometry and basis evaluation (C07, C02).',
